@@ -15,7 +15,8 @@ package lock
 //@ spec step_locked(c, locked0, nl, A, D) := ite(c >= A, nl + D, locked0)
 //@
 //@ func (*Lock).updateLockedState
-//@   property C03 C04 C16 C18
+//@   property C03 C04 C16 C18 C17
+//@   ensures[C17] no_secret_leak: secrets_clean
 //@   requires l.Modules.LockAfter >= 1 && l.Modules.LockWindow >= 0 && l.Modules.LockDuration >= 0
 //@   ensures[C04] step_is_spec: each Store.Save(?s) -> _ =>
 //@       (emits Now() -> ?nw :: emits Now() -> ?nl :: emits Now() -> ?ns :: nw <= nl && nl <= ns &&
